@@ -98,26 +98,39 @@ def redisRun : History → Store → List String
 
 /-! ## Concurrent callers -/
 
-/-- All ways to take the next call of one thread: `(call, observed, rest)`. -/
-def picks : List (List (Op × String)) → List ((Op × String) × List (List (Op × String)))
+/-- A caller during the search: calls still to explain, answers still to explain. -/
+abbrev Pending := List Op × List String
+
+/-- The next call of a caller together with the answer it saw. -/
+def headPick (t : Pending) : Option ((Op × String) × Pending) :=
+  match t.1, t.2 with
+  | op :: ops, r :: rs => some ((op, r), (ops, rs))
+  | _, _ => none
+
+/-- All ways to take the next call of one caller: `((call, answer), callers afterwards)`. -/
+def picks : List Pending → List ((Op × String) × List Pending)
   | [] => []
-  | [] :: ts => (picks ts).map (fun p => (p.1, [] :: p.2))
-  | (x :: t) :: ts => (x, t :: ts) :: (picks ts).map (fun p => (p.1, (x :: t) :: p.2))
+  | t :: ts =>
+    (match headPick t with
+     | some x => [(x.1, x.2 :: ts)]
+     | none => []) ++ (picks ts).map (fun p => (p.1, t :: p.2))
+
+/-- Every caller has all its calls answered and no answer is left over. -/
+def allDone (ts : List Pending) : Bool := ts.all (fun t => t.1.isEmpty && t.2.isEmpty)
 
 /-- Is there an order of the pending calls that the reference answers as observed? -/
-def lin (now : Nat) : Nat → Store → List (List (Op × String)) → Bool
-  | 0, _, ts => ts.all List.isEmpty
+def lin (now : Nat) : Nat → Store → List Pending → Bool
+  | 0, _, ts => allDone ts
   | fuel + 1, s, ts =>
-    ts.all List.isEmpty ||
+    allDone ts ||
     (picks ts).any (fun p =>
       render (step dflt now p.1.1 s).2 == p.1.2 && lin now fuel (step dflt now p.1.1 s).1 p.2)
 
 def totalLen {α} (ts : List (List α)) : Nat := (ts.map List.length).sum
 
-/-- Every thread reports one result per call, and the results are explained by one
-sequential order of all calls (within a burst at clock `now`, from the empty store). -/
+/-- Every thread reports one answer per call, and the answers are explained by one sequential
+order of all calls (within a burst at clock `now`, from the empty store). -/
 def holdsConc (now : Nat) (progs : List (List Op)) (obs : List (List String)) : Bool :=
-  (progs.map List.length == obs.map List.length) &&
-  lin now (totalLen progs) TTLStore.empty (List.zipWith List.zip progs obs)
+  (progs.length == obs.length) && lin now (totalLen progs) TTLStore.empty (progs.zip obs)
 
 end Tunnox.C13.Spec
